@@ -29,6 +29,23 @@ package scen
 // every eviction / non-admission rule is the same for all shapes: what counts
 // is whether the call's own context was live when it was failed.
 //
+// Who cancelled (wave 12). "A member that fails a ... request during an
+// uncancelled lookup ... is removed": whether a client lookup is cancelled is
+// a fact about its CALLER, and the simulator is that caller — it hands the
+// lookup a context without deadline and cancels it only by the action
+// lookup:cancel (or at Close). For a search-phase request of a client lookup
+// the rules lookup-fail-not-evicted and cancel-evicted are therefore decided
+// by the caller's act, not by the state of the context the node hands to the
+// message sender: a request that fails — by an error, an incorrect answer, or
+// by ending with its own context's error — while the caller has not cancelled
+// the lookup is a failed request of an uncancelled lookup, whatever deadline
+// or cancellation the node itself attached to that single request. Class of
+// regressions exposed: per-request / per-peer deadlines or internal
+// cancellations that are mistaken for a cancellation of the lookup and spare
+// the member. (Dials keep the context-based test: the node legitimately
+// cancels outstanding dials when the lookup terminates on its own, and a dial
+// that ends then is not a failure "during" the lookup.)
+//
 // Lookup kinds and incorrect answers (c12_value.go): a client lookup is, by a
 // drawn choice, a closest-peers lookup, GetValue or SearchValue — the property
 // says "a lookup query" / "an uncancelled lookup", not which kind. A scripted
@@ -101,7 +118,7 @@ func init() {
 		sc.Stub = []string{"host.Host/network (simhost)", "pb.MessageSender (level A, simnet.Sender)", "remote peers (scripted)", "identify (events emitted by the simulator)", "crypto/rand.Reader (tape-seeded for the run)"}
 		sc.Faults = []string{
 			"fault_dial_fail", "fault_rpc_error", "fault_cancel_lookup", "fault_close_mid_refresh", "fault_proto_removed", "fault_disconnect", "fault_lying_reply", "time_advance", "cancel_observed",
-			"fault_ctx_shaped_error_live_call", "probe_evict_ctx_shaped_fail",
+			"fault_ctx_shaped_error_live_call", "probe_evict_ctx_shaped_fail", "probe_evict_slow_request_fail_lookup_uncancelled",
 			"probe_admit_via_probe", "probe_admit_via_lookup", "probe_evict_lookup_fail", "probe_cancel_no_evict", "probe_evict_proto_removed", "probe_evict_refresh_probe",
 			"probe_refresh_answered_during_close", "probe_filter_rejected_proven", "probe_refresh_batched", "probe_refresh_after_close", "probe_proven_not_admitted", "probe_zero_peer_reply",
 			// c12_value.go: value lookups, incorrect answers, configured bootstrap peers
@@ -268,6 +285,7 @@ type c12Obl struct {
 	rule   string // oracle rule id
 	probe  string // stats key counted when the obligation was met non-vacuously
 	extra  string // a second such key (optional)
+	extra2 string // a third (optional)
 	what   string
 	// keptOut: observation only — counts probe when the peer was not a member
 	// before the step and is not one after it
@@ -568,6 +586,9 @@ func (w *c12World) observe() {
 			if o.extra != "" {
 				s.Count(o.extra)
 			}
+			if o.extra2 != "" {
+				s.Count(o.extra2)
+			}
 		case !o.absent && o.rule == "":
 			if w.prev[o.peer] && now[o.peer] {
 				s.Count(o.probe) // observation only
@@ -702,6 +723,25 @@ func (w *c12World) releaseAction(p *sim.Parked, observeCancel bool) sim.Action {
 		live := !p.Cancelled()
 		lk := w.lookupByTag(c.tag)
 		who := w.name(c.to)
+		// A search-phase request of a client lookup: whether the lookup is
+		// cancelled is the caller's act, which the simulator knows (header,
+		// "who cancelled").
+		callerLive := p.Kind == "rpc" && c.search && lk != nil && !lk.cancelled
+		ownCtxDone := callerLive && !live // the node itself ended / bounded this one request
+		if callerLive {
+			live = true
+		}
+		if ownCtxDone {
+			s.Count("obs_request_ctx_done_lookup_uncancelled")
+			s.Tracef("  the context of the request to %s is done, but the caller has not cancelled lookup %s", who, c.tag)
+		}
+		// the request waited for longer than the time-out the node was
+		// configured with for its own (refresh) queries — an input of the
+		// scenario; observation only
+		slow := false
+		if r, ok := p.Data.(*simnet.RPC); ok && callerLive && s.Now()-r.SentAt > w.cfg.QueryTimeout {
+			slow = true
+		}
 		// Outcome constraints that keep scheduler-decided races out of the run.
 		// The anchor never fails. For the release that may end a refresh lookup
 		// (no other call of the cycle is parked) see lastCycleCall.
@@ -749,11 +789,18 @@ func (w *c12World) releaseAction(p *sim.Parked, observeCancel bool) sim.Action {
 			if wrongKey && len(w.obl) > n {
 				w.obl[n].extra = "probe_evict_wrong_key_record"
 			}
+			if slow && len(w.obl) > n {
+				w.obl[n].extra2 = "probe_evict_slow_request_fail_lookup_uncancelled"
+			}
 		}
 		switch {
 		case observeCancel:
 			s.ReleaseCancelled(p)
-			if c.tag != "" {
+			if callerLive {
+				// the request ended with its own context's error; the caller did
+				// not cancel the lookup: a failed request of an uncancelled lookup
+				absent("lookup-fail-not-evicted", "probe_evict_lookup_fail", fmt.Sprintf("the search-phase request to %s ended with the error of its own context (%v) in client lookup %s, which its caller has not cancelled (and gave no deadline)", who, p.Ctx.Err(), c.tag))
+			} else if c.tag != "" {
 				w.mustRemain(c.to, "cancel-evicted", "probe_cancel_no_evict", fmt.Sprintf("the %s to %s of client lookup %s observed the cancellation of the lookup", p.Kind, who, c.tag))
 				if p.Kind == "dial" && lk != nil {
 					lk.searchPending[c.to] = false
